@@ -508,3 +508,88 @@ def dag_pre(n, tmax=None):
         pre.append("-1 <= p1_%d < %d" % (k, k))
         pre.append("-1 <= p2_%d < %d" % (k, k))
     return pre
+
+
+# =====================================================================================================
+# describe(model): public, concrete description of every definition in a model (C04, C11, C14, C19)
+# =====================================================================================================
+def _refdesc(space, name, proxy):
+    from modelx.core.base import Interface
+    v = proxy.value
+    if isinstance(v, Interface):
+        val = ("object", type(v).__name__, v.fullname)
+    elif is_symbolic(v):
+        val = ("value", "symbolic", "?")
+    else:
+        try:
+            val = ("value", type(v).__name__, repr(v))
+        except Exception:
+            val = ("value", type(v).__name__, "<unreprable>")
+    return (val, proxy.refmode)
+
+
+def describe_cells(c):
+    f = c.formula
+    inputs = {}
+    try:
+        for key in c:
+            k = key if isinstance(key, tuple) else (key,)
+            try:
+                if c.is_input(*k):
+                    vv = c(*k)
+                    inputs[repr(k)] = "?" if is_symbolic(vv) else repr(vv)
+            except Exception:
+                pass
+    except Exception:
+        pass
+    return {"source": f.source if f is not None else None, "params": list(c.parameters), "is_cached": c.is_cached, "allow_none": c.allow_none,
+            "doc": c.doc, "derived": c._is_derived(), "inputs": inputs}
+
+
+def describe_space(sp, with_items=True):
+    d = {"bases": [b.fullname for b in sp._direct_bases], "mro": [b.fullname for b in sp.bases],
+         "formula": sp.formula.source if sp.formula is not None else None, "doc": sp.doc, "allow_none": sp.allow_none,
+         "cells": {n: describe_cells(c) for n, c in sp.cells.items()},
+         "refs": {n: _refdesc(sp, n, sp._get_object(n, as_proxy=True)) for n in sp._own_refs},
+         "spaces": {n: describe_space(c, with_items) for n, c in sp.spaces.items()}}
+    if with_items and sp.formula is not None:
+        items = {}
+        for key, it in sp.itemspaces.items():
+            ins = {}
+            for cn, c in it.cells.items():
+                dd = describe_cells(c)["inputs"]
+                if dd:
+                    ins[cn] = dd
+            items[repr(key)] = ins
+        d["item_inputs"] = {k: v for k, v in items.items() if v}
+    return d
+
+
+def describe(m, with_items=True):
+    """Concrete (call under notrace, or natively).  Does not include the model's name or path."""
+    return {"doc": m.doc, "allow_none": m.allow_none,
+            "refs": {n: _refdesc(m, n, m._get_object(n, as_proxy=True)) for n in m.refs if n != "__builtins__"},
+            "spaces": {n: describe_space(sp, with_items) for n, sp in m.spaces.items()}}
+
+
+def diff(a, b, path=""):
+    """First difference between two descriptions (for messages)."""
+    if type(a) != type(b):
+        return "%s: %r != %r" % (path, a, b)
+    if isinstance(a, dict):
+        for k in sorted(set(a) | set(b), key=str):
+            if k not in a or k not in b:
+                return "%s/%s: only on one side" % (path, k)
+            d = diff(a[k], b[k], path + "/" + str(k))
+            if d:
+                return d
+        return None
+    if isinstance(a, (list, tuple)):
+        if len(a) != len(b):
+            return "%s: %r != %r" % (path, a, b)
+        for i, (x, y) in enumerate(zip(a, b)):
+            d = diff(x, y, "%s[%d]" % (path, i))
+            if d:
+                return d
+        return None
+    return None if a == b else "%s: %r != %r" % (path, a, b)
